@@ -50,7 +50,7 @@ func (ga *GoAway) Code() ErrorCode {
 }
 
 func (ga *GoAway) SetCode(code ErrorCode) {
-	ga.code = code & (1<<31 - 1)
+	ga.code = code
 	// TODO: Set error description as a debug data?
 }
 
